@@ -36,12 +36,6 @@ Definition b2n (b : bool) : N := if b then 1 else 0.
    compared for the accounts where that cannot matter: accounts that do not exist, accounts with a nonce or
    code, and nonce-0 code-less accounts that never had a storage slot (every such account of the universe:
    value-transfer targets, precompiles, the zero address). The storage-only system accounts 900/901 are excluded. *)
-Definition empty_of (d : data) (a : addr) : bool :=
-  match objs d a with
-  | None => true
-  | Some o => (a_nonce o =? 0) && (a_code o =? 0)
-  end.
-
 Definition slot_view (d : data) (p : N * N) : N :=
   let v := state_of d (fst p) (snd p) in if fst p =? ESC then v / unit18 else v.
 
@@ -69,6 +63,7 @@ Record tcase := Case {
   c_keys : list N;
   c_hashes : list N;
   c_slots : list (N * N);
+  c_gasleft : list N;              (* gas left after each top-level call as the real EVM reports it; [] = not compared *)
   c_txs : list (tx * tobs) }.
 
 Fixpoint list_eqb (l1 l2 : list N) : bool :=
@@ -83,27 +78,28 @@ Definition fuel0 : nat := 1100.
 Definition flat_logs (l : list log) : list N := flat_map (fun x => [l_addr x; l_topic x]) l.
 Definition flat_pairs (l : list (N * N)) : list N := flat_map (fun x => [fst x; snd x]) l.
 
-Fixpoint run_txs (c : tcase) (l : list (tx * tobs)) (s : state) : bool :=
+Fixpoint run_txs (c : tcase) (l : list (tx * tobs)) (gl : list N) (s : state) : bool :=
   match l with
   | [] => true
   | (t, (o_prep, o_out, o_logs, o_post)) :: r =>
-      let s1 := with_oracle (prepare (t_hash t) (t_index t) s) (t_oracle t) in
+      let s1 := with_gas (with_oracle (prepare (t_hash t) (t_index t) s) (t_oracle t)) (t_gas t) in
       let '(o, lg, s2) := exec_top (c_progs c) fuel0 t s1 in
       list_eqb (obs (c_addrs c) (c_keys c) (c_hashes c) (c_slots c) (dat s1)) o_prep
       && (outcome_code o =? o_out)
       && list_eqb (flat_logs lg) (flat_pairs o_logs)
       && list_eqb (obs (c_addrs c) (c_keys c) (c_hashes c) (c_slots c) (dat s2)) o_post
-      && run_txs c r s2
+      && match gl with g :: _ => gas s2 =? g | [] => true end
+      && run_txs c r (tl gl) s2
   end.
 
-Definition check (c : tcase) : bool := run_txs c (c_txs c) (init_state (c_init c)).
+Definition check (c : tcase) : bool := run_txs c (c_txs c) (c_gasleft c) (init_state (c_init c)).
 
 (* diagnostics (used interactively on a failing case) *)
 Fixpoint show_txs (c : tcase) (l : list (tx * tobs)) (s : state) : list (list N * N * list N * list N) :=
   match l with
   | [] => []
   | (t, _) :: r =>
-      let s1 := with_oracle (prepare (t_hash t) (t_index t) s) (t_oracle t) in
+      let s1 := with_gas (with_oracle (prepare (t_hash t) (t_index t) s) (t_oracle t)) (t_gas t) in
       let '(o, lg, s2) := exec_top (c_progs c) fuel0 t s1 in
       (obs (c_addrs c) (c_keys c) (c_hashes c) (c_slots c) (dat s1), outcome_code o, flat_logs lg,
        obs (c_addrs c) (c_keys c) (c_hashes c) (c_slots c) (dat s2)) :: show_txs c r s2
@@ -151,11 +147,11 @@ Fixpoint diag_txs (c : tcase) (l : list (tx * tobs)) (s : state) : list (option 
   match l with
   | [] => []
   | (t, (o_prep, o_out, o_logs, o_post)) :: r =>
-      let s1 := with_oracle (prepare (t_hash t) (t_index t) s) (t_oracle t) in
+      let s1 := with_gas (with_oracle (prepare (t_hash t) (t_index t) s) (t_oracle t)) (t_gas t) in
       let '(o, lg, s2) := exec_top (c_progs c) fuel0 t s1 in
       (first_diff 0 (obs (c_addrs c) (c_keys c) (c_hashes c) (c_slots c) (dat s1)) o_prep, (outcome_code o, o_out),
        first_diff 0 (flat_logs lg) (flat_pairs o_logs),
-       first_diff 0 (obs (c_addrs c) (c_keys c) (c_hashes c) (c_slots c) (dat s2)) o_post) :: diag_txs c r s2
+       first_diff 0 (obs (c_addrs c) (c_keys c) (c_hashes c) (c_slots c) (dat s2) ++ [gas s2]) o_post) :: diag_txs c r s2
   end.
 Definition diag (c : tcase) := diag_txs c (c_txs c) (init_state (c_init c)).
 
